@@ -275,7 +275,9 @@ def evaluate(prop, cases, stats):
             if isinstance(c, dict) and "layout" in c:
                 stats.hit("hist=" + str(c.get("hist")))
                 for lay in set(c["layout"].split(",")):
-                    stats.hit("layout:" + lay)
+                    stats.hit("layout:" + lay.rstrip("!"))
+                    if lay.endswith("!"):
+                        stats.hit("layout:read-only")
             for t in prop.tags(c, io, mo):
                 stats.hit(t)
         except Exception:  # noqa
